@@ -168,6 +168,7 @@ class Engine(CoreMixin, ExprMixin, CallMixin, LibMixin, StmtMixin, ReMixin):
             self.define_spec("cons")
         outs = self.exec_block(self.found.node.body, st)
         self.lemma_obligations()
+        self.lemma_cons_concat()
         self.lemma_cons()
         for o in outs:
             if o.st.infeasible():
@@ -216,6 +217,31 @@ class Engine(CoreMixin, ExprMixin, CallMixin, LibMixin, StmtMixin, ReMixin):
             goal = smt.Eq(self.spec_app("cons", [SV(xs.ty, [smt.Concat(xs.ts[0], smt.Unit(o.ts[0]))])], st).ts[0],
                           smt.Concat(self.spec_app("cons", [xs], st).ts[0], self.spec_app("consumed", [o], st).ts[0]))
             self.oblige(st, goal, "%s#lemma.cons_append" % self.short, "lemma", self.first_line, "cons(xs + [o]) == cons(xs) + consumed(o)")
+
+    def lemma_cons_concat(self):
+        """cons(xs + ys) == cons(xs) + cons(ys), by induction on ys: base case ys == [] and step ys == ys0 + [o] with the
+        statement for ys0 as hypothesis (xs arbitrary but fixed)"""
+        if "cons_concat" not in self.lemmas_used:
+            return
+        xs = self.ctx.const("lemc_xs", smt.seq(INT))
+        ys0 = self.ctx.const("lemc_ys0", smt.seq(INT))
+        o = self.ctx.const("lemc_o", INT)
+        mk = lambda t, st: self.spec_app("cons", [SV(ListT(Ref()), [t])], st).ts[0]      # noqa: E731
+        st = State()
+        empty = smt.EmptySeq(INT)
+        self.oblige(st, smt.Eq(mk(smt.Concat(xs, empty), st), smt.Concat(mk(xs, st), mk(empty, st))),
+                    "%s#lemma.cons_concat.base" % self.short, "lemma", self.first_line, "cons(xs + []) == cons(xs) + cons([])")
+        st = State()
+        st.assume(smt.Eq(mk(smt.Concat(xs, ys0), st), smt.Concat(mk(xs, st), mk(ys0, st))))          # induction hypothesis
+        ys = smt.Concat(ys0, smt.Unit(o))
+        cons_o = self.spec_app("consumed", [SV(Ref(), [o])], st).ts[0]
+        # the single-element lemma (proved separately as lemma.cons_append) for the two lists involved
+        self.lemmas_used.add("cons_append")
+        st.assume(smt.Eq(mk(smt.Concat(smt.Concat(xs, ys0), smt.Unit(o)), st), smt.Concat(mk(smt.Concat(xs, ys0), st), cons_o)))
+        st.assume(smt.Eq(mk(ys, st), smt.Concat(mk(ys0, st), cons_o)))
+        st.assume(smt.Eq(smt.Concat(xs, ys), smt.Concat(smt.Concat(xs, ys0), smt.Unit(o))))
+        self.oblige(st, smt.Eq(mk(smt.Concat(xs, ys), st), smt.Concat(mk(xs, st), mk(ys, st))),
+                    "%s#lemma.cons_concat.step" % self.short, "lemma", self.first_line, "cons(xs + (ys + [o])) == cons(xs) + cons(ys + [o])")
 
     def post_env(self, st):
         env = dict(self.params_env)
